@@ -290,8 +290,18 @@ pub fn run_tight_bounds(l: &[i128]) -> Vec<i128> {
     let tol = 2e-5 * scale;
     let mut tcode = 0i128;
     let (mut got, mut exp) = (0.0f64, 0.0f64);
-    if tb.left() < b.left() || tb.top() < b.top() || tb.right() > b.right() || tb.bottom() > b.bottom() {
-        tcode = 1;
+    // "within bounds() ... up to float rounding": a path without curves needs no arithmetic at all (its tight bounds ARE its
+    // bounds, exactly); an extremum of a curve is evaluated in binary32 and may leave bounds() by the rounding of that evaluation
+    let has_curve = verbs.iter().any(|v| matches!(v, PathVerb::Quad | PathVerb::Cubic));
+    if !has_curve {
+        if (tb.left(), tb.top(), tb.right(), tb.bottom()) != (b.left(), b.top(), b.right(), b.bottom()) {
+            tcode = 1;
+        }
+    } else {
+        let t32 = tol as f32;
+        if tb.left() < b.left() - t32 || tb.top() < b.top() - t32 || tb.right() > b.right() + t32 || tb.bottom() > b.bottom() + t32 {
+            tcode = 1;
+        }
     }
     for (g, e) in [(tb.left() as f64, el), (tb.top() as f64, et), (tb.right() as f64, er), (tb.bottom() as f64, eb)] {
         if (g - e).abs() > tol && tcode == 0 {
